@@ -164,3 +164,15 @@ func init() {
 		},
 	}
 }
+
+func init() {
+	properties["C10"] = Property{
+		Level: "exploration",
+		Rule: "cases = points of the grid crash kind (26: panics with string/error/Stringer/struct/custom error/error whose Error panics, nil dereference, index and slice bounds, division by zero, failed type assertions, nil-map write, closed/nil channel operations, mutex and channel deadlocks, re-panic in a deferred call, Goexit of main, unrecovered panic after a recovered one, nil func call, os.Exit(n), unlock of unlocked mutex, negative makeslice, stack overflow) x context (main, callee, goroutine, deferred call, closure) x mode (crash, crash under a recovering caller, position query) x GOTRACEBACK (unset, none, single, all, system), executed against generated programs (drawn own output on print/println/stderr/stdout incl. text that imitates runtime messages, crash code in main or in a dependency, drawn padding, -tiny alone or with -literals/-seed). Oracle: -tiny stderr equals exactly the program's own output (taken from a dry run of the regular binary), stdout and exit status equal the regular build's; under recover the whole output equals the regular build's; position queries report no file and line 1. Non-trivial = the regular binary wrote runtime text for the point (there was something to silence) resp. a non-nil recovered value; distinct = (kind, context, mode, GOTRACEBACK).",
+		Assumptions: append([]string{"GOTRACEBACK=crash (core dumps) and externally delivered signals are not explored", "concurrent map writes are left out: their detection is not deterministic"}, commonAssumptions...),
+		ReplayUnit:  "TestC10Replay",
+		Units: []Unit{
+			{Name: "TestC10", Kind: "e2e", Checks: [2]int{3, 30}, Workers: [2]int{3, 8}},
+		},
+	}
+}
